@@ -219,6 +219,39 @@ pub fn err_json(e: &SemverError) -> Value {
     Value::Object(m)
 }
 
+/// JSON routes other than to_string/from_str: through serde_json::Value, through a reader, and from JSON text
+/// that spells a character with an escape.  Each must give back the same value.
+fn version_json_routes(v: &Version) -> Value {
+    let mut out = Vec::new();
+    let r1: Result<Version, _> = serde_json::to_value(v).and_then(serde_json::from_value);
+    let js = serde_json::to_string(v).unwrap_or_default();
+    let r2: Result<Version, _> = serde_json::from_reader(js.as_bytes());
+    let esc = js.replacen('.', "\\u002e", 1);
+    let r3: Result<Version, _> = serde_json::from_str(&esc);
+    for r in [r1, r2, r3] {
+        out.push(match r {
+            Ok(x) => json!({"out":"ok","val":ver_to_json(&x)}),
+            Err(_) => json!({"out":"err","val":[]}),
+        });
+    }
+    Value::Array(out)
+}
+fn range_json_routes(v: &Range) -> Value {
+    let mut out = Vec::new();
+    let r1: Result<Range, _> = serde_json::to_value(v).and_then(serde_json::from_value);
+    let js = serde_json::to_string(v).unwrap_or_default();
+    let r2: Result<Range, _> = serde_json::from_reader(js.as_bytes());
+    let esc = js.replacen('.', "\\u002e", 1);
+    let r3: Result<Range, _> = serde_json::from_str(&esc);
+    for r in [r1, r2, r3] {
+        out.push(match r {
+            Ok(x) => json!({"out":"ok","val":range_to_json(&x)}),
+            Err(_) => json!({"out":"err","val":[]}),
+        });
+    }
+    Value::Array(out)
+}
+
 fn vres_json(r: &Result<Version, SemverError>) -> Value {
     match r {
         Ok(v) => json!({"out":"ok","val":ver_to_json(v)}),
@@ -504,12 +537,13 @@ impl<W: Write> Ctx<W> {
                                 Ok(r3) => (true, range_to_json(&r3), r3 == rac),
                                 Err(_) => (false, json!([]), false),
                             };
-                            (t2, eq, js, jok, jval, jeq)
+                            (t2, eq, js, jok, jval, jeq, range_json_routes(&rac))
                         });
-                        let (t2, eq, js, jok, jval, jeq) = match more {
+                        let (t2, eq, js, jok, jval, jeq, routes) = match more {
                             Some(x) => x,
                             None => return,
                         };
+                        ev.insert("jroutes".into(), routes);
                         ev.insert("out".into(), json!("ok"));
                         ev.insert("val".into(), bounds_to_json(&s2));
                         ev.insert("obs".into(), Value::Array(obs));
@@ -673,10 +707,10 @@ impl<W: Write> Ctx<W> {
                         Ok(x) => json!({"out":"ok","val":ver_to_json(&x)}),
                         Err(_) => json!({"out":"err"}),
                     };
-                    (p, vres_json(&re), p2, js, jb)
+                    (p, vres_json(&re), p2, js, jb, version_json_routes(&v2))
                 });
-                if let Some((p, re, p2, js, jb)) = more {
-                    self.emit(json!({"ev":"vbuilt","val":ver_to_json(&v),"print":bytes(&p),"re":re,"print2":bytes(&p2),"json":bytes(&js),"jback":jb}));
+                if let Some((p, re, p2, js, jb, routes)) = more {
+                    self.emit(json!({"ev":"vbuilt","val":ver_to_json(&v),"print":bytes(&p),"re":re,"print2":bytes(&p2),"json":bytes(&js),"jback":jb,"jroutes":routes}));
                 }
             }
             "vcmp" => {
@@ -850,9 +884,10 @@ impl<W: Write> Ctx<W> {
                         Ok(x) => json!({"out":"ok","val":ver_to_json(&x)}),
                         Err(_) => json!({"out":"err"}),
                     };
-                    (p, dbg, vres_json(&re), p2, js, jb, v2.is_prerelease())
+                    (p, dbg, vres_json(&re), p2, js, jb, v2.is_prerelease(), version_json_routes(&v2))
                 });
-                if let Some((p, _dbg, re, p2, js, jb, ispre)) = more {
+                if let Some((p, _dbg, re, p2, js, jb, ispre, routes)) = more {
+                    ev.insert("jroutes".into(), routes);
                     ev.insert("print".into(), bytes(&p));
                     ev.insert("re".into(), re);
                     ev.insert("print2".into(), bytes(&p2));
@@ -1168,9 +1203,11 @@ impl<W: Write> Ctx<W> {
                                 for k in 0..3 {
                                     list.insert((k * 11) % list.len(), d.clone());
                                 }
-                                let more: Vec<Value> = list.iter().rev().take(20).cloned().collect();
+                                let more: Vec<Value> = list.iter().rev().take(40).cloned().collect();
                                 list.extend(more);
-                                list.truncate(60);
+                                let again: Vec<Value> = list.iter().step_by(2).cloned().collect();
+                                list.extend(again);
+                                list.truncate(120);
                             } else {
                                 list.truncate(24);
                             }
